@@ -37,7 +37,10 @@ CLAIMED = {
   "decode_escape (every byte string, every escape form incl. \\z, \\u{..}, backslash-newline), long_bracket (every level, incl. the empty string) and, re-checked per run, that the model's "
   "precedence/token tables are the ones extracted from /repo. The real scanner/parser/ast are run in-process on exhaustive depth-2 trees x spellings, random deeper trees, exhaustive short "
   "literal spellings, Spec.Literal.escape outputs and single-token corruptions, and compared with the same Lean definitions (AST vs intended tree and vs Model.ParseExp; decoded value vs "
-  "Model.Literal; error line vs the corrupted token's line).",
+  "Model.Literal; error line vs the corrupted token's line). Error positions: Spec.Grammar.firstBad (viable-prefix automaton of the expression grammar) with firstBad_render, accepted_prefix_viable, "
+  "rejected_prefix_dead, operator_classes_agree and error_position_partial (parse succeeds iff firstBad = none is not proved for arbitrary token lists); golua's reported token is compared with firstBad on ~5200 "
+  "corrupted renderings per run, and at statement level on bracket templates (opener many lines before the offending token) in every line-break spelling; function-statement name forms x parameter lists are evaluated "
+  "(self, parameters, select('#', ...)); `...` outside a variadic function must be a syntax error (repaired in ad08787).",
   "Model.Literal / Spec.Numeral are the Lua semantics, not mirrors of golua's regexp/strconv code: that part is tied by correspondence only (level A). Statement forms are checked for "
   "acceptance and error position only; the expected error token of a corruption is known by construction, not from a Lean statement grammar. Comments/whitespace are exercised through "
   "spellings, not modelled. Trusted: Lean kernel, harness AST dumper (BinOp lists read as left folds, as astcomp compiles them), extract/fronttab.", "6/C12, 14/C12"),
@@ -131,9 +134,9 @@ CLAIMED = {
   "Theorems in Props/C18.lean (at-most-once per marking epoch, EXACTLY once by close / by the end of an isolating context, "
   "release once and after finalise, reverse marking order, re-mark resets order, killed contexts release without finalising) "
   "hold for ALL event histories of Model.ClonePool/GcRuntime; isolating_context_owns_pool / isolates_iff (which limit subsets give a context its own pool), finalizers_run_inside_current_context, "
-  "releasable_always_marked_release, releasable_userdata_released_by_close, finalizer_error_does_not_skip, log_independent_of_raising; never-finalised-while-reachable is proved `_partial` with a "
-  "`_counterexample` replayed on the code; two known findings remain (SetFinalizer throw when a value is marked in two "
-  "contexts' pools; re-finalisation through a clone of an escaped value).  The models are tied to "
+  "releasable_always_marked_release, releasable_userdata_released_by_close, finalizer_error_does_not_skip, log_independent_of_raising; pool ownership after the repair ca74c8e: marked_in_at_most_one_pool, remark_goes_to_owner, mark_never_throws, setfinalizer_never_throws (no reachable runtime state double-sets a Go finaliser, under the named "
+  "assumption OkRun), mark_panics_iff_pool_released; isolates_iff includes required flags (d0d5056); never-finalised-while-reachable is proved `_partial` with a "
+  "`_counterexample` replayed on the code; one known finding remains (re-finalisation through a clone of an escaped value).  The models are tied to "
   "runtime/internal/luagc/clonepool.go, runtime.go, thread.go, runtimecontextmanager.go by per-op diffs on ~170k (quick) / "
   "~4.9M (thorough) histories.",
   "Trusted: Lean kernel; the hand-written models (tie = correspondence only); Go's collector modelled as an environment that "
@@ -234,8 +237,8 @@ CLAIMED = {
   "(142 Go functions x edge-value tuples); any Go panic, process death, hang or wrong result after an exceeded limit is a violation keyed by class + normalised panic + frame.",
   "Only the opcode field layer and the limit checks are proved. The rest of C04 (scanner, parser, compiler stages, VM, ~140 library functions) is exploration supporting the theorems, not "
   "proof; the totality theorems of the other properties' models (build_total, match_total, unmarshal_total, parse_total, decode_total ...) live in their own Props files. Fatal Go errors "
-  "(stack exhaustion, OOM) cannot be expressed in the model and are only searched for; memory exhaustion in contexts without a memory limit is out of scope. One recorded defect "
-  "(debug.setmetatable on a file userdata: SetFinalizer fatal error).", "6/C04, 14/C04"),
+  "(stack exhaustion, OOM) cannot be expressed in the model and are only searched for; memory exhaustion in contexts without a memory limit is out of scope. No recorded defect left "
+  "(the SetFinalizer fatal error is repaired in ca74c8e, string.rep of an unallocatable size in 3059a03).", "6/C04, 14/C04"),
 }
 
 NOT_YET = "machinery for this property is not built yet in this revision (see DESIGN.md section 9 build order); not claimed"
